@@ -2,6 +2,7 @@
 
 from __future__ import annotations
 
+import copy
 from contextlib import contextmanager
 from dataclasses import dataclass, field
 from typing import TYPE_CHECKING, Literal, overload
@@ -48,6 +49,28 @@ def _normalise_split_results(
     return normalised
 
 
+def _nan_valued_copy(model: Model) -> Model:
+    """Copy of the model in which every plain parameter and initial value is NaN."""
+    from mxlpy.types import InitialAssignment
+
+    model = copy.deepcopy(model)
+    model.update_parameters(
+        {
+            k: np.nan
+            for k, v in model.get_raw_parameters(as_copy=False).items()
+            if not isinstance(v.value, InitialAssignment)
+        }
+    )
+    model.update_variables(
+        {
+            k: np.nan
+            for k, v in model.get_raw_variables(as_copy=False).items()
+            if not isinstance(v.initial_value, InitialAssignment)
+        }
+    )
+    return model
+
+
 @dataclass(kw_only=True, slots=True)
 class Simulation:
     """Simulation results."""
@@ -69,6 +92,14 @@ class Simulation:
     @classmethod
     def default(cls, model: Model, time_points: Array) -> Simulation:
         """Get result filled with NaNs."""
+        try:
+            model.get_parameter_values()
+        except ZeroDivisionError:
+            # The model cannot be evaluated at its initial state (a rate divides by a
+            # parameter that is 0) - the likely reason why the run failed. The placeholder
+            # must not fail for the same reason, neither now nor when it is read: it refers
+            # to a copy in which every number is NaN, which evaluates to NaN everywhere.
+            model = _nan_valued_copy(model)
         return Simulation(
             model=model,
             raw_variables=[
